@@ -102,6 +102,24 @@ CHECKS.update({
             BASE_NOTE + " The instant->offset function is the library's own (tied to zic by C01/C02).", "3/C07"),
 })
 
+CHECKS.update({
+    "C08": ("exploration",
+            "history monitor with a pristine-instance shadow model: exhaustive ordered pairs of cache states + seeded interleavings on shared processors and managers; ASan+UBSan, signal-safe crash journal",
+            "Every zone of both databases: all ordered pairs of 59 arguments x 16 operation pairs (with a repeated second query) "
+            "on a fresh processor, each answer compared with a freshly constructed time zone asked only that question; seeded "
+            "interleavings over 2..4 TimeZone values sharing one processor and over managers with cache size 1..4 holding "
+            "2*SIZE+1 zones. 'All finite sequences' is explored to these bounds only.",
+            BASE_NOTE + " The model is the same code in a pristine state.", "3/C08"),
+    "C09": ("exploration",
+            "sanitizer-instrumented hostile workloads (ASan+UBSan, report blocks classified by mechanism), crash journal, CPU-budget hang detector, buffer high-water monitor and guarded hook",
+            "Boundary/product and seeded random arguments for every public factory and accessor, all call sequences to length "
+            "3 (quick) / 4 (thorough) over argument classes, per-zone per-year transition-pool high-water marks against the "
+            "recorded sizes, the basic cache-overflow hook, abbreviation builders on exact-size heap buffers, and the C08 "
+            "histories, all under ASan+UBSan. A clean run is not memory safety; 16 int32-range-edge overflows are recorded as "
+            "known findings by call site and operand class.",
+            BASE_NOTE + " UBSan groups: undefined (incl. bounds, signed overflow, null, shift); implicit-conversion and unsigned overflow are deliberately off.", "3/C09"),
+})
+
 PLANNED = {
 }
 
